@@ -18,7 +18,7 @@
    The protocol part of C02 (no deadlock, termination, syncutil.Go / LimitedRegion) is
    Properties/C02_protocol.v. *)
 From Oras Require Import Base.Prelude Generated.GC02 Model.CopySpec Model.CopyTop Model.CopyOpt Model.CopyFault
-  Model.CopyFaultOpt Proofs.CopySpec Proofs.CopyFault Proofs.CopyFnFacts Proofs.CopyFaultOpt.
+  Model.CopyFaultOpt Proofs.CopySpec Proofs.CopyFault Proofs.CopyFnFacts Proofs.CopyFaultOpt Proofs.CopyFaultLive.
 Local Open Scope nat_scope.
 
 (* The tie of the hand-modelled error handling to the source (layer T -> P): the syntactic facts
@@ -140,6 +140,35 @@ Theorem C02_nofault_no_error_return :
     tainted g fs = false /\ returned (fb fs) <> Some false.
 Proof. exact fnofault_no_error. Qed.
 Print Assumptions C02_nofault_no_error_return.
+
+(* No stuck state.  The transition system excludes no behaviour by deadlocking: at every state reached by an
+   accepted trace that has not returned -- whatever faults and cancellations happened -- some FAULT-FREE event
+   is enabled (an untainted run can always go on towards the successful return; a tainted one can at least
+   return its error).  Hypotheses: the graph is well-founded (rank) and closed under successors inside its
+   universe, K >= 1, the roots are nodes of the universe, the destination is not a registry.Mounter, and
+   (ExtendedCopyGraph) the virtual super-root is nobody's successor.  With C02_nofault_no_error_return: a run
+   that meets no fault can be extended step by step, never to an error return.  (That real executions take
+   finitely many steps is the protocol part's C02_terminates; the acceptor itself allows unboundedly many
+   Mount candidates, hence c_mount = false here.) *)
+Theorem C02_no_stuck_state :
+  forall (g : graph) (c : cfg) (ext : bool) (d0 : list node) (rank : node -> nat),
+    (forall n x, In x (succ' g n) -> rank x < rank n) ->
+    1 <= c_K c -> c_root c < g_n g -> (forall x, In x (c_xroots c) -> x < g_n g) ->
+    (forall n x, n < g_n g -> In x (succ' g n) -> x < g_n g) ->
+    c_mount c = false ->
+    (ext = true -> forall n, ~ In (c_root c) (succ' g n)) ->
+    forall (tr : list fevent) (fs : fstate),
+    ext_ok g c ext d0 -> faccepts g c ext d0 tr = Some fs -> returned (fb fs) = None ->
+    exists fe fs', is_fault fe = false /\ fstep g c ext fs fe = Some fs'.
+Proof. exact fprogress. Qed.
+Print Assumptions C02_no_stuck_state.
+
+Example C02_example_progress_hypotheses :
+  (forall n x, In x (succ' g_sh n) -> x < n) /\ 1 <= c_K c_sh /\ c_root c_sh < g_n g_sh /\
+  (forall n x, n < g_n g_sh -> In x (succ' g_sh n) -> x < g_n g_sh) /\ c_mount c_sh = false /\
+  (forall n x, In x (succ' g_x n) -> x < n) /\ (forall n, ~ In (c_root c_x) (succ' g_x n)) /\
+  (forall n x, n < g_n g_x -> In x (succ' g_x n) -> x < g_n g_x).
+Proof. exact example_progress_hyps. Qed.
 
 (* Success of the extended system (also ExtendedCopyGraph's fan-out over several roots):
    everything reachable from every root of the call is in the destination. *)
